@@ -192,3 +192,12 @@ def _origin(f: Func, g, at: ast.AST, e: ast.expr, depth: int) -> Tuple[bool, str
                 return False, f"in-place reordering: {norm.U(c)}"
         return True, "; ".join(notes)
     return False, f"unrecognised expression: {norm.U(e)}"
+
+
+def snapshot_name(f: Func) -> str:
+    """Name of the per-round snapshot dict: the local D with  D[i] = {..., 'avail_cpu': ..., ...}  stored per pool."""
+    for n in own_nodes(f.node):
+        if isinstance(n, ast.Assign) and len(n.targets) == 1 and isinstance(n.targets[0], ast.Subscript) and isinstance(n.targets[0].value, ast.Name) \
+                and isinstance(n.value, ast.Dict) and any(isinstance(k, ast.Constant) and k.value == "avail_cpu" for k in n.value.keys):
+            return n.targets[0].value.id
+    return "pool_stats"
